@@ -2,10 +2,12 @@ package interpreter
 
 import (
 	"crypto/sha256"
+	"math/big"
 
 	"github.com/libsv/go-bk/bec"
 	"github.com/libsv/go-bt/v2"
 	"github.com/libsv/go-bt/v2/bscript"
+	"github.com/libsv/go-bt/v2/bscript/interpreter/errs"
 	"github.com/libsv/go-bt/v2/bscript/interpreter/scriptflag"
 	"github.com/libsv/go-bt/v2/sighash"
 )
@@ -320,7 +322,9 @@ func VH_C06_CheckSig() {
 		sig = []byte{}
 	}
 	th.dstack.stk = [][]byte{sig, pub}
+	extBefore := vcopy(e.tx.ExtendedBytes())
 	err := th.executeOpcode(th.scripts[1][th.scriptOff])
+	vassert(vbytesEq(e.tx.ExtendedBytes(), extBefore), "C08: a signature check leaves the caller's transaction, incl. the recorded spent output, unchanged")
 	nullfail := th.flags&scriptflag.VerifyNullFail != 0
 	switch {
 	case valid:
@@ -499,4 +503,37 @@ func VH_C06_Encoding() {
 		vassert(err == nil && len(th.dstack.stk) == 1 && !asBool(th.dstack.stk[0]), "C06: forged signature yields false")
 	}
 	vreach("c06-enc-soft")
+}
+
+// C06-L: the low-S rule at full width. A well-formed 70-byte DER signature with every byte of R and S
+// symbolic (leading bytes 01..7f, so no padding question arises): under LOW_S the opcode fails with the
+// high-S error exactly when S exceeds half the group order; in every other case the signature is merely
+// forged (false, or a hard failure under NULLFAIL), never a high-S error.
+func VH_C06_LowS() {
+	e := vsigThread(bscript.OpCHECKSIG)
+	th := e.th
+	_, pub := vkey("key")
+	r, s := vnondetBytes("sig-r", 32, 32), vnondetBytes("sig-s", 32, 32)
+	vassume(r[0] >= 1 && r[0] <= 0x7f && s[0] >= 1 && s[0] <= 0x7f)
+	sig := append([]byte{0x30, 68, 0x02, 32}, r...)
+	sig = append(sig, 0x02, 32)
+	sig = append(sig, s...)
+	sig = append(sig, vhashType(e.forkid))
+	th.dstack.stk = [][]byte{sig, pub}
+	err := th.executeOpcode(th.scripts[1][th.scriptOff])
+	// half the order of secp256k1, from the curve specification (SEC 2): n = FFFFFFFF FFFFFFFF FFFFFFFF FFFFFFFE BAAEDCE6 AF48A03B BFD25E8C D0364141
+	half := []byte{0x7f, 0xff, 0xff, 0xff, 0xff, 0xff, 0xff, 0xff, 0xff, 0xff, 0xff, 0xff, 0xff, 0xff, 0xff, 0xff, 0x5d, 0x57, 0x6e, 0x73, 0x57, 0xa4, 0x50, 0x1d, 0xdf, 0xe9, 0x2f, 0x46, 0x68, 0x1b, 0x20, 0xa0}
+	high := new(big.Int).SetBytes(s).Cmp(new(big.Int).SetBytes(half)) > 0
+	isHighErr := err != nil && verrCode(err) == int(errs.ErrSigHighS)
+	vassert(isHighErr == (high && th.flags&scriptflag.VerifyLowS != 0), "C06: the high-S failure is raised exactly for S above half the order under LOW_S")
+	if !isHighErr {
+		if th.flags&scriptflag.VerifyNullFail != 0 {
+			vassert(err != nil, "C06: forged full-width signature is a hard failure under NULLFAIL")
+		} else {
+			vassert(err == nil && len(th.dstack.stk) == 1 && !asBool(th.dstack.stk[0]), "C06: forged full-width signature yields false")
+		}
+		vreach("c06-lows-low")
+	} else {
+		vreach("c06-lows-high")
+	}
 }
